@@ -1,6 +1,7 @@
 \* Template: checks/C09pm.py instantiates the constants for every bounded instance.
 CONSTANTS
   Peers = {"p1", "p2"}
+  Kinds = {"C", "L", "N"}
   G = 2
   I = 1
   Buf = 2
